@@ -160,7 +160,7 @@ def load_known(prop: str) -> list[tuple[str, str]]:
 
 
 def write_replay(prop: str, replay: dict) -> str:
-    d = os.path.join(VERIF, 'replays', prop)
+    d = os.path.join(VERIF, 'replays', prop) if os.path.realpath(REPO) == '/repo' else os.path.join(BUILD, 'replays-scratch', prop)
     os.makedirs(d, exist_ok=True)
     body = json.dumps(replay, indent=1, sort_keys=True, default=str)
     name = hashlib.sha256(body.encode()).hexdigest()[:16] + '.json'
@@ -215,8 +215,10 @@ def finish(prop: str, tier: str, stats: Stats, rule: str, assumptions: list[str]
         'known_findings_hit': sorted(known_hit),
         'repo': REPO,
     }
-    os.makedirs(os.path.join(VERIF, 'evidence'), exist_ok=True)
-    with open(os.path.join(VERIF, 'evidence', prop + '.json'), 'w', encoding='utf-8') as f:
+    # evidence under evidence/ only ever describes runs against the real repository
+    evdir = os.path.join(VERIF, 'evidence') if os.path.realpath(REPO) == '/repo' else os.path.join(BUILD, 'evidence-scratch')
+    os.makedirs(evdir, exist_ok=True)
+    with open(os.path.join(evdir, prop + '.json'), 'w', encoding='utf-8') as f:
         json.dump(ev, f, indent=1, default=str)
         f.write('\n')
     seen = set()
